@@ -86,6 +86,7 @@ def confirm(pid, m):
             os.remove(f"{wt}/{pk}/zz_seed_demo_test.go")
         rc, out = sh("go test -vet=off -count=1 -timeout 25m ./... 2>&1 | grep -v 'no test files' | grep -v '^ok'", cwd=wt)
         bad = out.strip()
+        bad0 = bad
         if bad and "multiplexer" in bad:
             # known timing-flaky package of the unmodified tree (channel-timing assertions): re-run it alone
             rc2, out2 = sh("go test -vet=off -count=1 ./pkg/ast/pipesearch/multiplexer/", cwd=wt)
@@ -95,7 +96,7 @@ def confirm(pid, m):
         if bad:
             # load-sensitive tests of the unmodified tree (timing assertions) fail now and then when many suites run at once:
             # every package the run reports as failed is re-run alone; the suite counts as passed only if each of them passes then
-            pkgs = sorted(set(re.findall(r"^FAIL\s+github.com/siglens/siglens/(\S+)", bad, re.M)))
+            pkgs = sorted(set(re.findall(r"^FAIL\s+github.com/siglens/siglens/(\S+)", bad0, re.M)))
             rer = {}
             for pk_ in pkgs:
                 rc3, out3 = sh(f"go test -vet=off -count=1 ./{pk_}/", cwd=wt)
